@@ -47,9 +47,9 @@ Mark == /\ CheckInv("Agreement", Agreement) /\ CheckInv("DecideOnce", DecideOnce
         /\ CheckInv("LeaderProposed", LeaderProposed) /\ CheckInv("Validity", Validity)
         /\ CheckInv("QuorumBacked", QuorumBacked) /\ CheckInv("OneVotePerRound", OneVotePerRound)
         /\ CheckInv("TypeOK", TypeOK) /\ CheckInv("NoHonestUnjust", NoHonestUnjust)
-        /\ HWMark
 ActOK == /\ CheckInv("DecisionFrozen", \A p \in Honest : st[p].decided =>
                         (st'[p].decided /\ st'[p].dval = st[p].dval /\ st'[p].dround = st[p].dround
                          /\ st'[p].qc = st[p].qc /\ st'[p].ndec = st[p].ndec))
          /\ CheckInv("RoundMonotonic", \A p \in Honest : st'[p].round >= st[p].round \/ st'[p].decided)
+         /\ HWMarkA
 ====
